@@ -33,6 +33,12 @@ int libwifi_get_rsn_info(struct libwifi_rsn_info *info, const unsigned char *tag
                          const unsigned char *tag_end) {
     memset(info, 0, sizeof(struct libwifi_rsn_info));
 
+    // The version and the group cipher suite are read unconditionally
+    if (tag_end < tag_data ||
+        (size_t) (tag_end - tag_data) < sizeof(info->rsn_version) + sizeof(struct libwifi_cipher_suite)) {
+        return -EINVAL;
+    }
+
     // Create a pointer we can manipulate from the tag data
     unsigned char *data = (unsigned char *) tag_data;
 
@@ -323,6 +329,12 @@ void libwifi_enumerate_rsn_suites(struct libwifi_rsn_info *rsn_info, struct libw
 int libwifi_get_wpa_info(struct libwifi_wpa_info *info, const unsigned char *tag_data,
                          const unsigned char *tag_end) {
     memset(info, 0, sizeof(struct libwifi_wpa_info));
+
+    // The version and the multicast cipher suite are read unconditionally
+    if (tag_end < tag_data ||
+        (size_t) (tag_end - tag_data) < sizeof(info->wpa_version) + sizeof(struct libwifi_cipher_suite)) {
+        return -EINVAL;
+    }
 
     // Create a pointer we can manipulate from the tag data
     unsigned char *data = ((unsigned char *) tag_data);
